@@ -25,6 +25,7 @@ def run(ctx):
     from opticomlib.typing import gv, optical_signal, electrical_signal, binary_sequence
     rnd = random.Random(ctx.seed)
     events, meta = [], []
+    fib = [0]
     warnings.filterwarnings("ignore")
 
     def desc(name, obj):
@@ -48,7 +49,12 @@ def run(ctx):
             stages.append(desc("DM", o))
         elif linear == "FIBER":
             L = rnd.uniform(1, 50)
-            o = FIBER(o, L, alpha=0.2, beta_2=rnd.choice([-1, 1]) * 0.009 * slot_ps2 / L, gamma=0.0)
+            b2 = rnd.choice([-1, 1]) * 0.009 * slot_ps2 / L
+            # lossy / lossless, dispersive / dispersionless (library defaults), int-typed zeros, third-order dispersion only
+            kw = [dict(alpha=0.2, beta_2=b2, gamma=0.0), dict(alpha=0.0, beta_2=b2), dict(), dict(alpha=0, beta_2=0, beta_3=0, gamma=0), dict(alpha=0.2),
+                  dict(alpha=1e-9, beta_2=b2), dict(alpha=0.1, beta_2=b2 / 2, beta_3=b2 * 1e-3)][fib[0] % 7]
+            fib[0] += 1
+            o = FIBER(o, L, **kw)
             stages.append(desc("FIBER", o))
         y = protect(PD(protect(o), min(BWrel, 0.45 * sps) * R, r_, 300.0, RL, "ase-only", 0.0))      # receiver bandwidth >= 0.7 R and below Nyquist
         stages.append(desc("PD", y))
